@@ -21,7 +21,15 @@ func Until(t real.Time) real.Duration { return t.Sub(Now()) }
 
 // Sleep makes waiting visible: under the scheduler it is a yield, and with a virtual clock
 // it advances virtual time instead of blocking the process.
+// RealSleep makes Sleep always block for real (set by the free-running race-detector pass, in
+// which several goroutines run at once and nobody may move the shared virtual clock).
+var RealSleep bool
+
 func Sleep(d real.Duration) {
+	if RealSleep {
+		real.Sleep(d)
+		return
+	}
 	if sched.Controlled() {
 		// Under the scheduler a sleep in a retry loop is a pure yield: virtual time does not
 		// move, so that states do not differ merely by how often a waiter has polled (the
